@@ -286,6 +286,12 @@ def type_name(
     elif is_new_type(typ) and not PY_310_MIN:
         # because __qualname__ and __module__ are messed up
         typ = typ.__supertype__
+    elif is_type_alias_type(typ):
+        # no __qualname__: without this branch str(typ) gives the bare name
+        if short:
+            return typ.__name__
+        else:
+            return f"{typ.__module__}.{typ.__name__}"
     try:
         if short:
             return typ.__qualname__  # type: ignore
